@@ -8,6 +8,11 @@ JSON-lines driver of the C19 model.
         "skip": [names]  (optional: fields exempted from the post-run check; the code exempts none)}
   out: {"raised": bool, "changed": [names], "dir": "orig"|"other", "report": "silent"|"raised"|"logged"}
 
+  in : {"op": "run_node", …as "run" (without "same_job")…, "submitted": bool (the dispatcher had computed the checksum),
+        "pickled": bool (the job ran from a pickled copy), "keep_refs": bool (true = the code)}
+       the job is a node of the submitted workflow / a state of a split task
+  out: as "run"; "report" is that of the workflow submission
+
   in : {"op": "stage", "uses_staged": bool, "mode": "copy"|"link"|"hardlink"|"leave"}
   out: {"orig_changed": bool, "staged_is_orig": bool}
 -/
@@ -26,13 +31,16 @@ def modeOf : String → Except String CopyMode
   | "copy" => .ok .copy | "link" => .ok .link | "hardlink" => .ok .hardlink | "leave" => .ok .leave
   | s => .error s!"bad mode {s}"
 
-def handleRun (j : Json) : Except String Json := do
+def handleRun (node : Bool) (j : Json) : Except String Json := do
   let fields ← (← getArr j "fields").toList.mapM quad
   let table ← (← getArr j "hash").toList.mapM pair
   let memo ← (← j.getObjVal? "memo").getBool?
   let check ← (← j.getObjVal? "check").getBool?
   let raiseErrors ← (← j.getObjVal? "raise_errors").getBool?
-  let same ← (← j.getObjVal? "same_job").getBool?
+  let same ← if node then pure true else (← j.getObjVal? "same_job").getBool?
+  let submittedB ← if node then (← j.getObjVal? "submitted").getBool? else pure false
+  let pickled ← if node then (← j.getObjVal? "pickled").getBool? else pure false
+  let keepRefs ← if node then (← j.getObjVal? "keep_refs").getBool? else pure true
   for f in fields do
     if (table.lookup f.2.1).isNone || (table.lookup f.2.2.1).isNone then throw "value without hash"
   let hash : Nat → Nat := fun v => (table.lookup v).getD 0
@@ -44,8 +52,11 @@ def handleRun (j : Json) : Except String Json := do
   let skipL ← match j.getObjVal? "skip" with
     | .ok v => do (← v.getArr?).toList.mapM (fun x => x.getNat?)
     | .error _ => pure []
-  let o := runJobSkip hash combine (fun n => skipL.contains n) memo check (Job.fresh ins) f
-  let rep := match report hash combine raiseErrors same visible ins f o with
+  let j0 : Job Nat Nat (List (Nat × Nat)) :=
+    if submittedB then ((Job.fresh ins : Job Nat Nat (List (Nat × Nat))).getChecksum hash combine true).1 else Job.fresh ins
+  let j1 := if pickled then pickleRT keepRefs j0 else j0
+  let o := runJobSkip hash combine (fun n => skipL.contains n) memo check j1 f
+  let rep := match (if node then reportNode raiseErrors o else report hash combine raiseErrors same visible ins f o) with
     | .silent => "silent" | .raised => "raised" | .logged => "logged"
   return Json.mkObj [
     ("raised", toJson o.raised),
@@ -65,7 +76,8 @@ def handleStage (j : Json) : Except String Json := do
 def handle (j : Json) : Json :=
   match (do
     match (← getStr j "op") with
-    | "run" => handleRun j
+    | "run" => handleRun false j
+    | "run_node" => handleRun true j
     | "stage" => handleStage j
     | s => throw s!"bad op {s}" : Except String Json) with
   | .ok v => v
